@@ -1,12 +1,12 @@
 #!/bin/bash
 # run_seed.sh <ID> [extra check ids...] — apply seeded/<ID>/patch.diff to /repo (never committed), run the
 # quick checks, undo.
-ID="$1"; shift
-P=/verif/seeded/$ID/patch.diff
+DIR="$1"; ID="${DIR:0:3}"; shift     # seeded/<DIR> (e.g. C03 or C03b); the property is its first three characters
+P=/verif/seeded/$DIR/patch.diff
 cd /verif
-git -C /repo apply "$P" || { echo "$ID: patch does not apply to /repo"; exit 1; }
+git -C /repo apply "$P" || { echo "$DIR: patch does not apply to /repo"; exit 1; }
 for c in $ID "$@"; do
   out=$(./check $c --keep 2>&1 | grep -E "^VIOLATION|^OK|^KNOWN" | head -2 | tr '\n' ' ')
-  echo "seed $ID -> check $c: $out"
+  echo "seed $DIR -> check $c: $out"
 done
 git -C /repo checkout -- .
